@@ -1,0 +1,98 @@
+//go:build verif
+
+// Contracts for package operators, checked by /verif/govc (comment-only file; no code).
+package operators
+
+// atoi0(s): the integer the numeric operators compare: strconv.Atoi's value, 0 when s is not a number.
+//@ define atoi0(s string) int := ite(isnum(s), atoi(s), 0)
+//@ define hexDigit(c int) bool := (c >= '0' && c <= '9') || (c >= 'a' && c <= 'f') || (c >= 'A' && c <= 'F')
+
+// ---- string operators: result is the documented predicate of (expanded argument, value), argument order pinned
+//@ func (*streq).Evaluate props C15
+//@   requires macroSet: !isnil(o.data)
+//@   ensures result == (expand(o.data, tx) == value)
+//@ func (*contains).Evaluate props C15
+//@   requires macroSet: !isnil(o.data)
+//@   ensures result == strContains(value, expand(o.data, tx))
+//@ func (*strmatch).Evaluate props C15
+//@   requires macroSet: !isnil(o.data)
+//@   ensures result == strContains(value, expand(o.data, tx))
+//@ func (*within).Evaluate props C15
+//@   requires macroSet: !isnil(o.data)
+//@   ensures result == strContains(expand(o.data, tx), value)
+//@ func (*beginsWith).Evaluate props C15
+//@   requires macroSet: !isnil(o.data)
+//@   ensures result == strHasPrefix(value, expand(o.data, tx))
+//@ func (*endsWith).Evaluate props C15
+//@   requires macroSet: !isnil(o.data)
+//@   ensures result == strHasSuffix(value, expand(o.data, tx))
+
+// ---- numeric operators
+//@ func (*eq).Evaluate props C15
+//@   requires macroSet: !isnil(o.data)
+//@   ensures result == (atoi0(value) == atoi0(expand(o.data, tx)))
+//@ func (*ge).Evaluate props C15
+//@   requires macroSet: !isnil(o.data)
+//@   ensures result == (atoi0(value) >= atoi0(expand(o.data, tx)))
+//@ func (*gt).Evaluate props C15
+//@   requires macroSet: !isnil(o.data)
+//@   ensures result == (atoi0(value) > atoi0(expand(o.data, tx)))
+//@ func (*le).Evaluate props C15
+//@   requires macroSet: !isnil(o.data)
+//@   ensures result == (atoi0(value) <= atoi0(expand(o.data, tx)))
+//@ func (*lt).Evaluate props C15
+//@   requires macroSet: !isnil(o.data)
+//@   ensures result == (atoi0(value) < atoi0(expand(o.data, tx)))
+
+//@ func (*noMatch).Evaluate props C15
+//@   ensures result == false
+//@ func (*unconditionalMatch).Evaluate props C15
+//@   ensures result == true
+
+// ---- byte-table and %XX operators
+//@ func validateByte props C15,C07
+//@   ensures isnil(result) <==> (0 <= b && b <= 255)
+
+//@ func (*validateByteRange).Evaluate props C15,C07
+//@   ensures result <==> (data != "" && (exists i int :: 0 <= i && i < len(data) && !o.validBytes[data[i]]))
+//@   loop 1 vars i
+//@     invariant 0 <= i && i <= len(data)
+//@     invariant forall k int :: 0 <= k && k < i ==> o.validBytes[data[k]]
+//@     decreases len(data) - i
+
+//@ func isHexDigit props C15
+//@   ensures result == hexDigit(c)
+
+// wellFormedUpTo(s, n): every '%' that starts an escape before position n is followed by two hex digits.
+//@ func validateURLEncodingInternal props C15,C07
+//@   ensures result == urlEncodingValid <==> (forall k int :: 0 <= k && k < len(input) && input[k] == '%' ==> k + 2 < len(input) && hexDigit(input[k+1]) && hexDigit(input[k+2]))
+//@   ensures result == urlEncodingValid || result == urlEncodingInvalidNonHex || result == urlEncodingInvalidTruncated
+//@   loop 1 vars i
+//@     invariant 0 <= i && i <= len(input)
+//@     invariant forall k int :: 0 <= k && k < i && input[k] == '%' ==> k + 2 < len(input) && hexDigit(input[k+1]) && hexDigit(input[k+2])
+//@     decreases len(input) - i
+
+//@ func (*validateURLEncoding).Evaluate props C15
+//@   ensures result <==> (len(value) > 0 && !(forall k int :: 0 <= k && k < len(value) && value[k] == '%' ==> k + 2 < len(value) && hexDigit(value[k+1]) && hexDigit(value[k+2])))
+
+// ---- constructors establish the object invariant required above (the macro argument is compiled and non-nil)
+//@ func newStrEq props C15
+//@   ensures isnil(result1) ==> typeof(result0) == tag("*streq") && !isnil(payload(result0, "*streq").data)
+//@ func newContains props C15
+//@   ensures isnil(result1) ==> typeof(result0) == tag("*contains") && !isnil(payload(result0, "*contains").data)
+//@ func newWithin props C15
+//@   ensures isnil(result1) ==> typeof(result0) == tag("*within") && !isnil(payload(result0, "*within").data)
+//@ func newBeginsWith props C15
+//@   ensures isnil(result1) ==> typeof(result0) == tag("*beginsWith") && !isnil(payload(result0, "*beginsWith").data)
+//@ func newEndsWith props C15
+//@   ensures isnil(result1) ==> typeof(result0) == tag("*endsWith") && !isnil(payload(result0, "*endsWith").data)
+//@ func newEq props C15
+//@   ensures isnil(result1) ==> typeof(result0) == tag("*eq") && !isnil(payload(result0, "*eq").data)
+//@ func newGE props C15
+//@   ensures isnil(result1) ==> typeof(result0) == tag("*ge") && !isnil(payload(result0, "*ge").data)
+//@ func newGT props C15
+//@   ensures isnil(result1) ==> typeof(result0) == tag("*gt") && !isnil(payload(result0, "*gt").data)
+//@ func newLE props C15
+//@   ensures isnil(result1) ==> typeof(result0) == tag("*le") && !isnil(payload(result0, "*le").data)
+//@ func newLT props C15
+//@   ensures isnil(result1) ==> typeof(result0) == tag("*lt") && !isnil(payload(result0, "*lt").data)
